@@ -12,6 +12,8 @@ def check_C06(ctx):
                 "refuted by vm_compute witnesses: C06_refuted_* and C06_lin_full_refuted (C06_lin_full is a Definition); "
                 "everything else is explored on the real code (bounded schedules), not proved"}
     ctx.proofs()
+    if not conccheck.lockprog(ctx):
+        return
     conccheck.run(ctx, KINDS)
 
 
